@@ -893,6 +893,36 @@ def large_grid_scenarios(chk, rs, prop, replay, t):
     return n
 
 
+def fine_anisotropic_swap(chk, rs):
+    """C07 on a grid that is FINE against the output height, with strongly anisotropic horizontal diffusion (Kx = 8 Kz, Ky = Kz / 2):
+    many components have decayed to nothing at the output level along x and not at all along y. Exchanging the axes (and with
+    them Kx and Ky) still transposes the fields; mirroring still mirrors them."""
+    n = 0
+    rng = np.random.default_rng(seed() + 41)
+    for prec, an in (("double", False), ("single", False), ("double", True)):
+        nx, ny = 24, 20
+        z = np.linspace(0.1, 12.1, 25)
+        Kz = (0.4 * z) if not an else np.full(25, 2.0)
+        u = (1.0 + np.log(z / 0.05)) if not an else np.full(25, 3.0)
+        v = 0.3 * u
+        prof = (u, v, 8.0 * Kz, 0.5 * Kz, Kz)
+        q = rng.uniform(0.0, 1.0, size=(ny, nx))
+        kw = dict(z=z, profiles=prof, domain=(float(nx), float(ny)), levels=[12], modes=(nx, ny), meas_pt=(0.0, 0.0), footprint=False, analytic=an, halo=0.0, precision=prec)
+        _, p0, f0 = rs.solve3(q, kw)
+        kwt = dict(kw, profiles=rs.flip_profiles(prof, swap=True), domain=(float(ny), float(nx)), modes=(ny, nx))
+        _, pt, ft = rs.solve3(q.T, kwt)
+        n += 2
+        tol = 1e-9 if prec == "double" else 2e-4
+        sc_f, sc_p = max(float(np.max(np.abs(f0))), 1e-300), max(float(np.max(np.abs(p0))), 1e-300)
+        df = float(np.max(np.abs(ft - np.transpose(f0, (0, 2, 1))))) / sc_f
+        dp = float(np.max(np.abs(pt - np.transpose(p0, (0, 2, 1))))) / sc_p
+        chk.case(json.dumps(["fine anisotropic swap", prec, an]))
+        if df > tol or dp > tol:
+            chk.violation("a 24 x 20 grid of one-metre cells, output 6 m up, Kx = 8 Kz, Ky = Kz / 2 (%s precision, %s): exchanging the axes does not transpose the fields (flux %.3e, conc %.3e relative)"
+                          % (prec, "analytic" if an else "numerical", df, dp), {"kind": "fine_anisotropic_swap", "precision": prec, "analytic": an}, klass={"check": "transpose", "variant": "fine anisotropic"})
+    return n
+
+
 def interface_levels(chk):
     """C10 through the configuration layer (`domain.output_levels`, `domain.full_output` -> run_bldfm_single): the k-th slice
     is the run that asks for the k-th level alone, and its height coordinate is that level's, in the order of the request"""
@@ -1217,6 +1247,8 @@ def main(prop, families=None):
         "each final state is replayed on the real solver (error/shape prediction + the property's identities, several profile/source/precision variants); "
         "a case is a (configuration, profile set, precision, source) tuple on which an identity was evaluated" % [f for f, _ in families]
     )
+    if prop == "C07":
+        chk.extra["fine_anisotropic_swaps"] = fine_anisotropic_swap(chk, rs)
     if prop == "C10":
         chk.extra["large_column_scenarios"] = large_column_scenarios(chk, rs, t)
         chk.extra["interface_level_requests"] = interface_levels(chk)
